@@ -165,8 +165,8 @@ main(int argc, char **argv)
                                 continue;
                         }
                         /* dense: small lengths, the end, and the neighbourhoods of the kernels' block structure (Adler-32 reduces every
-                         * 5552 bytes; folding kernels change path at powers of two) */
-#define DENSE(l) ((l) < 600 || (l) > N - 70 || (l) % 5552 < 72 || (l) % 5552 > 5552 - 40)
+                         * 5552 bytes; the 3-way crc32_iscsi kernels work in blocks of 768 / 1536 / 3072 bytes; folding kernels change path at powers of two) */
+#define DENSE(l) ((l) < 600 || (l) > N - 70 || (l) % 5552 < 72 || (l) % 5552 > 5552 - 40 || (l) % 768 < 48 || (l) % 768 > 768 - 16)
                         for (len = 0; len <= N; len += (DENSE(len) || near_pow2(len)) ? 1 : lenstep) {
                                 point(va, seed, msg, exp, len, VH_END, 0);
                                 point(va, seed, msg, exp, len, VH_START, 0);
